@@ -29,6 +29,9 @@ from .wma import WMA
 INDICATOR_MAP = {
     "Amorph": Amorph,
     "Counter": Counter,
+    "COUNT": Counter,
+    "AROON": AROON,
+    "DONCHIAN": Donchian,
     "aroon": AROON,
     "ADX": ADX,
     "ATR": ATR,
